@@ -201,6 +201,7 @@ Definition val_dom (s : ser_id) (d : de_id) (v : uval) : Prop :=
   | SJoinWs, DSplitWs, VList l => forallb ws_item l = true          (* items non-empty, no white space *)
   | SJoinNl, DSplitWs, VList l => forallb ws_item l = true          (* one item per line, read back by split_whitespace *)
   | SJoinNl, DSplitNl, VList l => l <> [] /\ forallb no_lf l = true   (* at least one item, no LF inside *)
+  | SJoinNl, DSplitNlE, VList l => forallb no_lf l = true /\ l <> [[]]   (* no LF inside; not the list holding one empty item *)
   | SJoinNl, DLines, VList l => forallb no_eol l = true /\ last l [1%N] <> []   (* no LF/CR, last item non-empty *)
   | SExt i, DExt j, VExt e => i = j /\ ext_dom i e
   | _, _, _ => False
@@ -224,6 +225,11 @@ Proof.
   - eexists; split; [reflexivity|]. rewrite split_ws_join by exact H. reflexivity.
   - eexists; split; [reflexivity|]. rewrite split_ws_join_lf by exact H. reflexivity.
   - destruct H as [H1 H2]. eexists; split; [reflexivity|]. change [10%N] with [LF]. rewrite split_lf_join_nolf by assumption. reflexivity.
+  - destruct H as [H1 H2]. eexists; split; [reflexivity|]. destruct l as [|x r]; [reflexivity|].
+    change [10%N] with [LF]. rewrite split_lf_join_nolf by (discriminate || assumption).
+    destruct (join [LF] (x :: r)) eqn:Ej; [|reflexivity]. exfalso.
+    destruct r as [|y r']; [cbn in Ej; subst x; apply H2; reflexivity|].
+    rewrite join_cons2 in Ej by discriminate. destruct x; discriminate.
   - destruct H as [H1 H2]. eexists; split; [reflexivity|]. change [10%N] with [LF]. rewrite lines_join by assumption. reflexivity.
   - destruct H as [<- H]. eexists; split; [reflexivity|]. rewrite (Hext _ _ H). reflexivity.
 Qed.
@@ -1065,6 +1071,7 @@ Proof.
   - exists (VList []). reflexivity.
   - exists (VList [[]]). cbn. split; [discriminate|reflexivity].
   - exists (VList []). cbn. split; [reflexivity|discriminate].
+  - exists (VList []). cbn. split; [reflexivity|discriminate].
   - apply N.eqb_eq in H. subst id0. destruct (Hext id) as (e & He). exists (VExt e). cbn. split; [reflexivity|exact He].
 Qed.
 
@@ -1072,17 +1079,6 @@ Qed.
 Lemma bool_yesno_pair_refuted (E : Type) ext_print ext_parse b :
   exists t, ser E ext_print SBool (VBool b) = Some t /\ de E ext_parse DYesNo t = None.
 Proof. destruct b; eexists; split; reflexivity. Qed.
-
-(* ================================================================== 9. apt-sources Signature: the finding and its fix *)
-Lemma sig_keep_refuted t : sig_parse_keep (sig_print (KeyBlock t)) = KeyBlock (10%N :: t).
-Proof. reflexivity. Qed.
-Lemma sig_strip_rt v : (forall p, v = KeyPath p -> has_lf p = false) -> sig_parse_strip (sig_print v) = v.
-Proof.
-  destruct v as [t|p]; intros H; [reflexivity|]. specialize (H p eq_refl). cbn [sig_print]. unfold sig_parse_strip.
-  destruct p as [|c r]; [reflexivity|]. rewrite H.
-  destruct (N.eqb_spec 10 c) as [<-|Hn]; [cbn in H; discriminate|].
-  destruct c as [|q]; [reflexivity|]. do 4 (destruct q as [q|q|]; try reflexivity). exfalso. apply Hn. reflexivity.
-Qed.
 
 (* the round trip alone, under the name DESIGN.md uses *)
 Theorem derive_rt (E : Type) ext_print ext_parse ext_dom (PL : ParaLike) : ParaLaws PL ->
